@@ -209,8 +209,8 @@ class UnionUnpackerBuilder(AbstractUnpackerBuilder):
                 if is_builtin_type(matched_type):
                     matched_type_name = matched_type.__name__
                 else:
-                    matched_type_name = (
-                        spec.builder.get_type_name_identifier(matched_type)
+                    matched_type_name = spec.builder.get_type_name_identifier(
+                        matched_type
                     )
                 if type_match_statements > 1:
                     condition = f"__value_type is {matched_type_name}"
@@ -1170,15 +1170,22 @@ def unpack_named_tuple(spec: ValueSpec) -> Expression:
         field_type = spec.builder.get_type_name_identifier(spec.type)
         if as_dict:
             # a missing key selects the default of that member only
-            lines.append("fields = {}")
-            for idx, unpacker in zip(indices, unpackers):
-                with lines.indent("try:"):
+            lines.append("fields = []")
+            for idx, field, unpacker in zip(indices, fields, unpackers):
+                if field in defaults:
+                    with lines.indent("try:"):
+                        lines.append(f"item = value[{idx}]")
+                    with lines.indent("except KeyError:"):
+                        lines.append(
+                            "fields.append("
+                            f"{field_type}._field_defaults[{idx}])"
+                        )
+                    with lines.indent("else:"):
+                        lines.append(f"fields.append({unpacker})")
+                else:
                     lines.append(f"item = value[{idx}]")
-                with lines.indent("except KeyError:"):
-                    lines.append("pass")
-                with lines.indent("else:"):
-                    lines.append(f"fields[{idx}] = {unpacker}")
-            lines.append(f"return {field_type}(**fields)")
+                    lines.append(f"fields.append({unpacker})")
+            lines.append(f"return {field_type}(*fields)")
         else:
             lines.append("fields = []")
             for idx, unpacker in zip(indices, unpackers):
